@@ -5,7 +5,7 @@ import json, subprocess, sys
 from pathlib import Path
 V = Path("/verif")
 for pid in sys.argv[1:]:
-    for d in sorted((V / "seeded").glob(f"{pid}-m*")):
+    for d in sorted((V / "seeded").glob(f"{pid}-*m[0-9]")):
         out = subprocess.run([str(V / "tools/try_patch.sh"), str(d / "patch.diff"), pid], capture_output=True, text=True).stdout
         viol = [l for l in out.splitlines() if l.startswith("VIOLATION")]
         concrete = [l for l in viol if not l.endswith("no-failing-input-found")]
